@@ -222,6 +222,47 @@ func c16R3(e *Engine) {
 				fn = f
 			}
 		}
+		if fn == nil {
+			// the detector may be part of a larger helper (expression text, key list, …): the function that branches on a
+			// test of (the text parameter, an element of the key-list parameter)
+			for _, f := range e.funcs(role) {
+				if f.Parent() != nil {
+					continue
+				}
+				var text, keys *ssa.Parameter
+				for _, p := range f.Params {
+					switch typeName(p.Type()) {
+					case "string":
+						if text == nil {
+							text = p
+						}
+					case "[]string":
+						keys = p
+					}
+				}
+				if text == nil || keys == nil {
+					continue
+				}
+				instrs(f, func(in ssa.Instruction) {
+					ifi, ok := in.(*ssa.If)
+					if !ok {
+						return
+					}
+					c, ok := strip(ifi.Cond).(*ssa.Call)
+					if u, isU := ifi.Cond.(*ssa.UnOp); isU && u.Op == token.NOT {
+						c, ok = strip(u.X).(*ssa.Call)
+					}
+					if !ok || len(c.Call.Args) != 2 || strip(c.Call.Args[0]) != ssa.Value(text) {
+						return
+					}
+					if u, isU := strip(c.Call.Args[1]).(*ssa.UnOp); isU && u.Op == token.MUL {
+						if ia, isIA := u.X.(*ssa.IndexAddr); isIA && strip(ia.X) == ssa.Value(keys) {
+							fn = f
+						}
+					}
+				})
+			}
+		}
 		if !e.anchor("R3", role+": unused-placeholder detector (func(string, []string) []string)", fn == nil) {
 			continue
 		}
@@ -345,21 +386,48 @@ func c16R4(e *Engine) {
 				if !ok || c.Call.StaticCallee() != vf {
 					return
 				}
-				ro := strings.Join(e.origins(c.Call.Args[0]), "|")
-				isNames := strings.Contains(ro, "Names")
-				// the key list is produced by a key-collecting call on either the names map (string elements) or the values map
-				ko := "?"
-				if kc, ok := strip(c.Call.Args[1]).(*ssa.Call); ok && len(kc.Call.Args) == 1 {
-					if m, ok := kc.Call.Args[0].Type().Underlying().(*types.Map); ok {
+				// the pattern and the key list may both be parameters of a helper that wraps the validator: judged at the
+				// helper's call sites
+				type site struct {
+					at       ssa.Instruction
+					host     *ssa.Function
+					pat, lst ssa.Value
+				}
+				sites := []site{{c, f, c.Call.Args[0], c.Call.Args[1]}}
+				pp, isPP := strip(c.Call.Args[0]).(*ssa.Parameter)
+				lp, isLP := strip(c.Call.Args[1]).(*ssa.Parameter)
+				if isPP && isLP && pp.Parent() == f && lp.Parent() == f {
+					sites = nil
+					pi, li := paramIndex(f, pp), paramIndex(f, lp)
+					for _, cs := range e.callersOf(f) {
+						if cc, ok := cs.(*ssa.Call); ok && pi < len(cc.Call.Args) && li < len(cc.Call.Args) {
+							sites = append(sites, site{cc, cc.Parent(), cc.Call.Args[pi], cc.Call.Args[li]})
+						}
+					}
+				}
+				for _, st := range sites {
+					ro := strings.Join(e.origins(st.pat), "|")
+					isNames := strings.Contains(ro, "Names")
+					// the key list is produced by a key-collecting call on either the names map (string elements) or the values
+					// map, or collected in place by a range over that map
+					ko := "?"
+					var m *types.Map
+					if kc, ok := strip(st.lst).(*ssa.Call); ok && len(kc.Call.Args) == 1 {
+						m, _ = kc.Call.Args[0].Type().Underlying().(*types.Map)
+					}
+					if m == nil {
+						m = rangedMapOfKeys(st.lst)
+					}
+					if m != nil {
 						if strings.Contains(typeName(m.Elem()), "AttributeValue") {
 							ko = "keys of the values map"
 						} else {
 							ko = "keys of the names map"
 						}
 					}
+					pairOK := (isNames && ko == "keys of the names map") || (!isNames && ko == "keys of the values map")
+					e.check(pairOK, "R4", e.fname(st.host)+":"+ro, e.ipos(st.at), "pattern %s is applied to %s", ro, ko)
 				}
-				pairOK := (isNames && ko == "keys of the names map") || (!isNames && ko == "keys of the values map")
-				e.check(pairOK, "R4", e.fname(f)+":"+ro, e.ipos(c), "pattern %s is applied to %s", ro, ko)
 			})
 		}
 	}
@@ -946,4 +1014,73 @@ func sameElemLoad(a, b ssa.Value) bool {
 	na, k1 := constInt(ia.Index)
 	nb, k2 := constInt(ib.Index)
 	return k1 && k2 && na == nb
+}
+
+func paramIndex(f *ssa.Function, p *ssa.Parameter) int {
+	for i, q := range f.Params {
+		if q == p {
+			return i
+		}
+	}
+	return -1
+}
+
+// rangedMapOfKeys: v is a []string filled by `for k := range m { v = append(v, k) }` – returns m's type. Every element
+// appended anywhere on the chain must be the key of a range over one and the same kind of map.
+func rangedMapOfKeys(v ssa.Value) *types.Map {
+	var m *types.Map
+	ok := true
+	seen := map[ssa.Value]bool{}
+	var walk func(x ssa.Value)
+	walk = func(x ssa.Value) {
+		x = strip(x)
+		if seen[x] || !ok {
+			return
+		}
+		seen[x] = true
+		switch y := x.(type) {
+		case *ssa.Phi:
+			for _, ed := range y.Edges {
+				walk(ed)
+			}
+		case *ssa.MakeSlice:
+		case *ssa.Const:
+		case *ssa.Call:
+			if staticCalleeName(y) != "builtin.append" {
+				ok = false
+				return
+			}
+			walk(y.Call.Args[0])
+			for _, el := range variadicElems(y.Call.Args[1]) {
+				ex, isEx := strip(el).(*ssa.Extract)
+				if !isEx || ex.Index != 1 {
+					ok = false
+					return
+				}
+				nx, isN := ex.Tuple.(*ssa.Next)
+				if !isN {
+					ok = false
+					return
+				}
+				rg, isR := nx.Iter.(*ssa.Range)
+				if !isR {
+					ok = false
+					return
+				}
+				mt, isM := rg.X.Type().Underlying().(*types.Map)
+				if !isM || (m != nil && !types.Identical(m, mt)) {
+					ok = false
+					return
+				}
+				m = mt
+			}
+		default:
+			ok = false
+		}
+	}
+	walk(v)
+	if !ok {
+		return nil
+	}
+	return m
 }
